@@ -13,8 +13,8 @@ VERIF = os.path.dirname(os.path.dirname(os.path.abspath(__file__)))
 def extra(ctx, spec):
     sys.path.insert(0, VERIF)
     from selftest.mutants import MUTANTS
-    from selftest.run import run_mutant
-    todo = [m for m in MUTANTS if any(p == ctx.prop for p, _ in m["expects"])]
+    from selftest.run import run_mutant, seed_mutants
+    todo = [m for m in MUTANTS if any(p == ctx.prop for p, _ in m["expects"])] + seed_mutants(ctx.prop)
     # restrict each mutant's expectations to this property (the others are exercised by their own thorough run)
     todo = [dict(m, expects=[(p, k) for (p, k) in m["expects"] if p == ctx.prop]) for m in todo]
     results = []
